@@ -28,12 +28,14 @@ def api():
             continue
         item_cls = None
         kwmap = {}
+        call_kws = []
         posname = None
         for node in ast.walk(fn):
             if isinstance(node, ast.Call) and isinstance(node.func, ast.Attribute) and node.func.attr.endswith('Item') \
                     and isinstance(node.func.value, ast.Name) and node.func.value.id == 'eflr_types':
                 item_cls = node.func.attr
                 for kw in node.keywords:
+                    call_kws.append((kw.arg, kw.value.id if isinstance(kw.value, ast.Name) else None))
                     if isinstance(kw.value, ast.Name):
                         kwmap[kw.value.id] = kw.arg
         if item_cls is None:
@@ -59,7 +61,8 @@ def api():
             }
         params = [p for p in inspect.signature(getattr(ff.LogicalFile, fn.name)).parameters if p not in ('self', 'name', 'set_name', 'origin_reference')]
         types[key] = {'method': fn.name, 'item_cls': icls, 'set_cls': scls, 'set_type': scls.set_type,
-                      'params': {p: kwmap.get(p) for p in params}, 'attrs': attrs}
+                      'params': {p: kwmap.get(p) for p in params}, 'attrs': attrs, 'call_kws': call_kws,
+                      'attr_order': list(attrs)}
     _API = types
     return types
 
